@@ -227,10 +227,12 @@ def cases(draw: Any, prop: str, tier: str) -> dict:
             next_sid += 1
         elif kind in ("dispatch", "burst"):
             n = 1 if kind == "dispatch" else d.int(2, 6)
-            for _ in range(n):
+            for bi in range(n):
                 c = d.pick(chans)
                 sub = d.pct(25)  # dispatch an instance of a subclass of the declared event class
                 ops.append({"op": "dispatch", "ch": list(c), "k": payload % 7, "sub": sub})
+                if kind == "burst" and bi < n - 1:
+                    ops[-1]["nocp"] = True  # the next dispatch follows without a checkpoint in between
                 for s in live:
                     if c in s.chans and len(s.fifo) < s.maxq:
                         s.fifo.append((0, payload % 7))
@@ -576,7 +578,7 @@ class SeqInterp:
                     self.trace.append(["open", op["sid"], [list(c) for c in cs], op["filter"], op["maxq"]])
                 elif kind == "dispatch":
                     do_dispatch(tuple(op["ch"]), op["k"], op.get("sub", False))
-                    if waiters:
+                    if waiters and not op.get("nocp"):
                         await checkpoints(3)
                 elif kind == "consume":
                     s = streams[op["sid"]]
